@@ -37,6 +37,10 @@ package cheque
 //@   let ben = cheque.Cheque.Beneficiary
 //@   let pay = bigval(cheque.Cheque.CumulativePayout)
 //@   let last0 = lastPayout(s, cheque.Cheque.Beneficiary)
+//@   # the comparison with the last cheque and the write are one critical section: the last cheque is
+//@   # read, and the accepted one written, while the store lock is held exclusively
+//@   callassert StateStorer.Get last-cheque-read-under-the-exclusive-store-lock: lockedw(s)
+//@   callassert StateStorer.Put accepted-cheque-written-under-the-exclusive-store-lock: lockedw(s)
 //@   ensures addressed-to-us: result1 == nil ==> cheque.Cheque.Recipient == s.recipient
 //@   ensures signed-by-issuer: result1 == nil ==> signatureOK(cheque.Cheque.Recipient, ben, pay, seq(cheque.Signature), s.chainID) && chequeSigner(cheque.Cheque.Recipient, ben, pay, seq(cheque.Signature), s.chainID) == ben
 //@   ensures strictly-increasing: result1 == nil ==> pay > last0
